@@ -1382,7 +1382,7 @@ struct AppCfg {
     cid_lifetime_ms: u64,  // 0 = connection ids do not expire
     active_cid_limit: [u64; 2], // (client, server) active_connection_id_limit, 0 = default
     cc: u64,               // 0 cubic, 1 bbr
-    max_ack_delay_ms: u64, // 0 = default (25 ms)
+    max_ack_delay_ms: [u64; 2], // (client, server) advertised max_ack_delay, 0 = default (25 ms)
     pause_ms: u64,         // the writers sleep this long between chunks
     rebinds: u64,          // the client's socket moves to a new port this many times ...
     rebind_every_ms: u64,  // ... at this interval
@@ -1397,7 +1397,9 @@ struct AppCfg {
 // writes honoured); 3 futures AsyncWriteExt::write_all
 // read modes: 0 receive(); 1 futures AsyncReadExt::read with odd sizes; 2 receive_vectored with
 // 1..4 slots until !is_open; 3 tokio AsyncRead::poll_read; 4 slow reader: waits until the writer
-// has finished and the data had time to arrive, then receive_vectored with 1..2 slots
+// has finished and the data had time to arrive, then receive_vectored with 1..2 slots; 5 tokio
+// read_exact: ONE ReadBuf of 3000..20000 bytes polled again and again until it is full (the data
+// arrives in packet-sized pieces) or the stream ends
 fn pick_mode(mask: u64, seed: u64, sid: u64, dir: u64, salt: u64, n: u64) -> Option<u64> {
     let allowed: Vec<u64> = (0..n).filter(|m| mask & (1 << m) != 0).collect();
     if allowed.is_empty() {
@@ -1474,8 +1476,8 @@ fn flow_size(c: &AppCfg, sid: u64, dir: u64) -> u64 {
 
 fn limits(c: &AppCfg, ep: usize) -> Limits {
     let mut l = Limits::new();
-    if c.max_ack_delay_ms > 0 {
-        l = l.with_max_ack_delay(Duration::from_millis(c.max_ack_delay_ms)).unwrap();
+    if c.max_ack_delay_ms[ep] > 0 {
+        l = l.with_max_ack_delay(Duration::from_millis(c.max_ack_delay_ms[ep])).unwrap();
     }
     if c.send_buf > 0 {
         l = l.with_max_send_buffer_size(c.send_buf.min(u32::MAX as u64) as u32).unwrap();
@@ -1626,9 +1628,10 @@ async fn reader(mut recv: s2n_quic::stream::ReceiveStream, c: AppCfg, sh: Sh, ep
     let mut rng = Rng::new(c.seed, 5000 + sid * 2 + dir);
     let mut off = 0u64;
     let mut buf = vec![0u8; (2 * c.read_size as usize).max(2)];
-    let rmode = pick_mode(c.rmask, c.seed, sid, dir, 0x5151, 5).unwrap_or(if c.read_size == 0 { 0 } else { 1 });
+    let rmode = pick_mode(c.rmask, c.seed, sid, dir, 0x5151, 6).unwrap_or(if c.read_size == 0 { 0 } else { 1 });
     let slots = if rmode == 4 { 1 + (mix(c.seed ^ sid) % 2) as usize } else { 1 + (mix(c.seed ^ sid ^ 0x99) % 4) as usize };
     let mut vec_done = false;
+    let mut big: Vec<u8> = Vec::new();
     if rmode == 4 {
         // the slow reader: wait until the writer finished, then long enough for everything that
         // flow control admits to arrive and be reassembled
@@ -1661,6 +1664,33 @@ async fn reader(mut recv: s2n_quic::stream::ReceiveStream, c: AppCfg, sh: Sh, ep
                     Ok(0) => Ok(None),
                     Ok(k) => Ok(Some(buf[..k].to_vec())),
                     Err(_) => Err(()),
+                }
+            }
+            5 => {
+                // what tokio's AsyncReadExt::read_exact does: the same, partially filled ReadBuf is
+                // handed to poll_read until it is full; at the end of the stream the filled part is the tail
+                let n = 3000 + rng.below(17001) as usize;
+                if big.len() < n {
+                    big.resize(n, 0);
+                }
+                let mut rb = tokio::io::ReadBuf::new(&mut big[..n]);
+                let mut res: Result<(), ()> = Ok(());
+                loop {
+                    let before = rb.filled().len();
+                    let r = futures::future::poll_fn(|cx| tokio::io::AsyncRead::poll_read(std::pin::Pin::new(&mut recv), cx, &mut rb)).await;
+                    if r.is_err() {
+                        res = Err(());
+                        break;
+                    }
+                    if rb.filled().len() == before || rb.remaining() == 0 {
+                        break;
+                    }
+                }
+                match res {
+                    // bytes that were filled before an error are discarded, as read_exact does
+                    Err(()) => Err(()),
+                    Ok(()) if rb.filled().is_empty() => Ok(None),
+                    Ok(()) => Ok(Some(rb.filled().to_vec())),
                 }
             }
             3 => {
@@ -2035,7 +2065,7 @@ fn e2e_stream(input: &[V]) -> Vec<V> {
     let close_at_end = c.u64() != 0;
     let finish_mode = c.u64().min(1);
     let wmask = c.u64() & 15;
-    let rmask = c.u64() & 31;
+    let rmask = c.u64() & 63;
     let send_buf = c.u64().min(1 << 24);
     let md_drop_pm = c.u64().min(1000);
 
@@ -2370,8 +2400,9 @@ fn e2e_inject(input: &[V]) -> Vec<V> {
 // ------------------------------------------------------------------------------------------
 //
 // case: [seed, retry_first, drop_pm, dup_pm, jitter_ms, delay_ms, n_bidi, bytes, max_ack_delay_ms,
-//        fault_until_ms, cc, n_uni, corrupt_pm]
-// output: [1, watchdog_hit, connect_ok, end_us, max_ack_delay_us, capped, n_rows, rows x 8]
+//        fault_until_ms, cc, n_uni, corrupt_pm, server_max_ack_delay_ms (0 = same), pause_ms, chunk]
+// output: [1, watchdog_hit, connect_ok, end_us, client max_ack_delay_us, capped, n_rows,
+//          server max_ack_delay_us, rows x 8]   (each endpoint's OWN advertised max_ack_delay)
 //   rows (kind, endpoint, space, a, b, t_us, 0, 0), in order of occurrence:
 //   0 packet built for sending: a = packet number, b = ack eliciting
 //   1 packet processed:         a = packet number, b = ack eliciting
@@ -2396,6 +2427,12 @@ fn e2e_pn(input: &[V]) -> Vec<V> {
     let cc = c.u64().min(1);
     let n_uni = c.u64().min(4);
     let corrupt_pm = c.u64().min(500);
+    // the server's own max_ack_delay (0 = the same as the client's), and sparse traffic: the
+    // writers pause between chunks so that lone in-order packets arrive with nothing else to send
+    let mad_srv_ms = c.u64().min(1000);
+    let mad_srv_ms = if mad_srv_ms == 0 { mad_ms } else { mad_srv_ms };
+    let pause_ms = c.u64().min(5000);
+    let chunk = c.u64().min(100_000);
 
     let sh = new_shared(seed);
     sh.lock().unwrap().xmode = 1;
@@ -2407,14 +2444,15 @@ fn e2e_pn(input: &[V]) -> Vec<V> {
         stream_window: 200_000,
         conn_window: 1_000_000,
         max_streams: 100,
-        chunk: 3000,
+        chunk: if chunk == 0 { 3000 } else { chunk },
         read_size: 0,
         idle_ms: 30_000,
         watchdog_us: 300_000_000,
         close_at_end: true,
         retry_first,
         cc,
-        max_ack_delay_ms: mad_ms,
+        max_ack_delay_ms: [mad_ms, mad_srv_ms],
+        pause_ms,
         ..Default::default()
     };
     let net = NetCfg {
@@ -2432,7 +2470,8 @@ fn e2e_pn(input: &[V]) -> Vec<V> {
     let s = sh.lock().unwrap();
     let end = if s.xcapped { s.xlog.last().map(|r| r[5]).unwrap_or(0) } else { end_us as V };
     let mad_us = if mad_ms == 0 { 25_000 } else { mad_ms * 1000 };
-    let mut out: Vec<V> = vec![1, s.watchdog_hit as V, s.connect_ok as V, end, mad_us as V, s.xcapped as V, s.xlog.len() as V];
+    let mad_srv_us = if mad_srv_ms == 0 { 25_000 } else { mad_srv_ms * 1000 };
+    let mut out: Vec<V> = vec![1, s.watchdog_hit as V, s.connect_ok as V, end, mad_us as V, s.xcapped as V, s.xlog.len() as V, mad_srv_us as V];
     for r in &s.xlog {
         out.extend_from_slice(r);
     }
